@@ -150,6 +150,7 @@ type timedOut struct {
 	tx     []time.Duration
 	txData [][]byte
 	txDest []string
+	wantDest string // the destination the caller asked for
 	result byte // 1 got, 2 no response, 3 context error, 9 other
 	end    time.Duration
 }
@@ -210,7 +211,9 @@ func timedCallV4(tau time.Duration, tries int, cancelAt, closeAt *time.Duration,
 				}
 			}()
 		}
-		dest := &net.UDPAddr{IP: net.IPv4bcast, Port: 67}
+		dest := []*net.UDPAddr{{IP: net.IPv4bcast, Port: 67}, {IP: net.IP{10, 0, 0, 1}, Port: 67}, {IP: net.IP{192, 0, 2, 9}, Port: 1067},
+			{IP: net.IPv4bcast, Port: 67, Zone: "eth1"}}[(int(tau/time.Millisecond)+tries+len(ds))%4]
+		out.wantDest = dest.String()
 		resp, err := c.SendAndRead(ctx, dest, req, nclient4.IsMessageType(dhcpv4.MessageTypeOffer))
 		out.end = time.Since(conn.start)
 		switch {
@@ -290,7 +293,10 @@ func timedCallV6(tau time.Duration, tries int, cancelAt, closeAt *time.Duration,
 				}
 			}()
 		}
-		resp, err := c.SendAndRead(ctx, nclient6.AllDHCPRelayAgentsAndServers, req, nclient6.IsMessageType(dhcpv6.MessageTypeAdvertise))
+		dest := []*net.UDPAddr{nclient6.AllDHCPRelayAgentsAndServers, {IP: net.ParseIP("ff02::1:2"), Port: 547, Zone: "eth0"},
+			{IP: net.ParseIP("fe80::1"), Port: 547, Zone: "2"}, {IP: net.ParseIP("2001:db8::5"), Port: 1547}}[(int(tau/time.Millisecond)+tries+len(ds))%4]
+		out.wantDest = dest.String()
+		resp, err := c.SendAndRead(ctx, dest, req, nclient6.IsMessageType(dhcpv6.MessageTypeAdvertise))
 		out.end = time.Since(conn.start)
 		switch {
 		case err == nil && resp != nil:
@@ -395,8 +401,8 @@ func genC12(r *Run) {
 						if !bytesEq(o.txData[k], reqBytes) {
 							r.Fail("c12-retransmitted-bytes-differ", cs, fmt.Sprintf("transmission %d differs from the request's encoding", k))
 						}
-						if o.txDest[k] != o.txDest[0] {
-							r.Fail("c12-destination", cs, "")
+						if o.txDest[k] != o.wantDest {
+							r.Fail("c12-destination", cs, fmt.Sprintf("transmission %d went to %s, the caller asked for %s", k, o.txDest[k], o.wantDest))
 						}
 					}
 					wantEnd := time.Duration(tau*((1<<uint(n))-1)) * time.Millisecond
